@@ -32,6 +32,8 @@ REQUIRED = [
     'Ems.C20.formats_have_writers', 'Ems.C20.unknown_format_fails', 'Ems.C20.exit_status',
     'Ems.C20.exit_status_nonzero', 'Ems.C20.pattern_text', 'Ems.C20.pattern_language',
     'Ems.C20.guess_table_generated', 'Ems.C20.format_choices_generated', 'Ems.C20.missing_points_generated',
+    'Ems.C20.clip_handler_generated', 'Ems.C20.extract_points_handler_generated',
+    'Ems.C20.export_geometry_handler_generated', 'Ems.C20.generated_handlers_write_last',
 ]
 RULE = ('bounds texts: corpus of minimal strings, texts drawn from the grammar of bounds_re (signs, the four '
         'numeral forms, underscores, non-ASCII decimal digits, every kind of blank around the commas), 24 kinds of '
